@@ -15,7 +15,7 @@ NULLABLE_KINDS = ["Int8", "Int16", "Int32", "Int64", "UInt8", "UInt16", "UInt32"
 DT_UNITS = ["s", "ms", "us", "ns"]
 DT_KINDS = ["dt_" + u for u in DT_UNITS]
 DTZ_KINDS = ["dtz_" + u for u in DT_UNITS]
-TD_KINDS = ["td_us", "td_ns"]
+TD_KINDS = ["td_us", "td_ns", "td_s", "td_ms"]
 TEXT_KINDS = ["str", "ostr", "bytes", "json"]
 CAT_KINDS = ["cat_str", "cat_int", "cat_float", "cat_str_ord", "cat_many"]
 ALL_KINDS = (["bool"] + INT_KINDS + FLOAT_KINDS + TEXT_KINDS + DT_KINDS + DTZ_KINDS + TD_KINDS +
@@ -206,7 +206,7 @@ def make_column(col, n, seed):
             s = s.dt.tz_localize("UTC").dt.tz_convert(_tz(col.get("tz", "UTC")))
     elif kind in TD_KINDS:
         unit = kind.split("_")[1]
-        lim = 86400 * 10 ** 6 * 1000
+        lim = 86400 * 1000 * {"s": 1, "ms": 10 ** 3}.get(unit, 10 ** 6)
         a = rng.integers(-lim, lim, n, dtype="int64") if vals != "small" else rng.integers(0, 5, n).astype("int64")
         if unit == "ns":
             a = a * 1000
@@ -258,6 +258,8 @@ def make_index(ix, n, seed):
     if k == "dtz":
         return pd.DatetimeIndex((rng.permutation(n).astype("int64") * 3600 * 10 ** 9).view("M8[ns]"), name=name
                                 ).tz_localize("UTC").tz_convert("Europe/Berlin")
+    if k == "td":       # elapsed times of second resolution
+        return pd.Index((rng.permutation(n).astype("int64") * 90 - 3600).view("m8[s]"), name=name)
     if k == "dup":      # repeated labels, as pd.concat without ignore_index leaves them
         return pd.Index(np.arange(n, dtype="int64") % max(1, (n + 1) // 2), name=name)
     if k == "dup_str":
